@@ -1,8 +1,10 @@
 SPECIFICATION Spec
-CONSTANT Jobs = {"1", "2"}
+CONSTANT Jobs = {"1", "2", "3"}
+CONSTANT Fresh = {"3"}
 CONSTANT Depth = 3
 PROPERTY OldReachableUnderNew
 PROPERTY Idempotent
 PROPERTY NeverLosesReach
+INVARIANT FreshUntouched
 INVARIANT Emit
 CHECK_DEADLOCK FALSE
